@@ -895,4 +895,14 @@ def grid_roles(repo: Repo) -> RuleRun:
 grid_roles.rule_id = "C11.GRID-ROLES"
 
 
-RULES = [quad_map_rule, chop_coverage, chop_role, radial_convention, arc_rings, chain_source, mirror_pairing, trig_domain, fill_conformal, arc_side, affine_kinds, stack_chain, no_shared_parts, moved_once, transform_routing, axis_terms, mirror_matrix, arguments_untouched, arc_midpoint, scalar_amount, joint_cusps, no_exact_coordinates, grid_roles]
+def collapsed_edge(repo: Repo) -> RuleRun:
+    """'... chop calls ... are sufficient for writing to succeed' - also for the shapes with collapsed edges (a Wedge on its axis). Same rule as C02.COLLAPSED-EDGE."""
+    from . import c02
+
+    return c02.collapsed_edge(repo, PROP, "C11.COLLAPSED-EDGE")
+
+
+collapsed_edge.rule_id = "C11.COLLAPSED-EDGE"
+
+
+RULES = [quad_map_rule, chop_coverage, chop_role, radial_convention, arc_rings, chain_source, mirror_pairing, trig_domain, fill_conformal, arc_side, affine_kinds, stack_chain, no_shared_parts, moved_once, transform_routing, axis_terms, mirror_matrix, arguments_untouched, arc_midpoint, scalar_amount, joint_cusps, no_exact_coordinates, grid_roles, collapsed_edge]
